@@ -24,6 +24,9 @@ def proj(kind, o):
     if kind == "respinfo":
         # array header lengths are seeded per constructor: compare "all field lines written", not the count
         o = re.sub(r"hv=(-?\d+)/(-?\d+)", lambda m: "hv=ok" if m.group(1) == m.group(2) or m.group(2) == "-1" else m.group(0), o)
+        # the caller-supplied code of a default response is seeded per constructor: compare "the code that was passed"
+        o = re.sub(r"status=(-?\d+),code_arg=true(.*?),code=(\d+)", lambda m: "status=%s,code_arg=true%s" % ("code" if m.group(1) == m.group(3) else m.group(1), m.group(2)), o)
+        o = re.sub(r",code=\d+", "", o)
         return ";".join(sorted({p.split(":", 1)[1] if ":" in p else p for p in o.split(" ; ")}))  # a set: aliases add constructors, not behaviours
     # a shared response's Write takes the status from its use site (Write(w, code)); an inline one
     # has it fixed. Both are "the documented arm": the client-side class is what is compared.
